@@ -57,6 +57,16 @@ impl AnyCase {
         }
     }
 
+    /// Payload bytes held by the case (gigabyte cases are reported as drawn, not minimised:
+    /// the shrinker materialises its candidates).
+    pub fn payload_bytes(&self) -> u64 {
+        match self {
+            AnyCase::Prog(c) => c.ops.iter().filter_map(|o| o.data()).map(|d| d.0.len() as u64).sum(),
+            AnyCase::Frag(c) => c.ops.iter().map(|o| if let FragOp::Write { data, .. } = o { data.0.len() as u64 } else { 0 }).sum(),
+            _ => 0,
+        }
+    }
+
     /// Simpler variants of this case, most aggressive first.
     pub fn shrink_candidates(&self) -> Vec<AnyCase> {
         match self {
